@@ -1,0 +1,118 @@
+//go:build verif
+
+// Contracts for the style ids the document helpers put into the body (property C13, style part), read by
+// /verif/engine (govc). Comments only: with or without the build tag this file adds no code to the package.
+//
+// The registry side is in pkg/style/zz_contracts_verif_registry.go: a new style manager defines Normal,
+// Heading1..Heading9, Quote, CodeBlock, the TOC ids "12".."21", the table styles "a1"/"ab", each under its own id,
+// and the styles part of a saved package is generated from the registry (serializeStyles). Here: every helper
+// that writes a style id writes one of those ids, for every argument.
+//   AddHeadingParagraph(WithBookmark)  - contract in zz_contracts_verif_body2.go (agent-tab); C13 clause: the id is
+//                                        "Heading<level>" (level outside 1..9 -> Heading1) and it is looked up in
+//                                        the registry at the time of the call: no style, no reference.
+//   (*SDT).AddTOCEntry                 - zz_contracts_verif_toc.go: itoa(12 + level), level clamped to 1..9.
+//   createTOCEntryWithFields / createWordFieldTOC - below: "13".."21" for the entries, "12" for the field
+//                                        paragraph, "Normal" for the field-end paragraph (was the undefined "2").
+//   (*Paragraph).SetStyle              - below: exactly the caller's id (the caller chooses; the Markdown renderer
+//                                        passes the literals "Quote" and "CodeBlock", both predefined).
+// Not provable, recorded as findings: ApplyTableStyle writes the template NAME ("TableGrid", ...) as style id -
+// none of the fifteen template names is a registered style; addTOCEntry/insertTOCField write "TOC<level>".
+package document
+
+// styTOCEntryId(level): the id of the TOC entry style of a level, as the style registry numbers them (13 = toc 1).
+//@ spec styTOCEntryId(level int) string = itoa(12 + level)
+//@ spec styIsTOCEntryId(v string) bool = v == "13" || v == "14" || v == "15" || v == "16" || v == "17" || v == "18" || v == "19" || v == "20" || v == "21"
+
+//@ func (*Paragraph).SetStyle
+//@ props C13
+//@ requires p != nil
+//@ ensures p.Properties != nil && p.Properties.ParagraphStyle != nil && fresh(p.Properties.ParagraphStyle) && p.Properties.ParagraphStyle.Val == styleID
+//@ ensures old(p.Properties) != nil ==> p.Properties == old(p.Properties)
+//@ ensures old(p.Properties) == nil ==> fresh(p.Properties)
+//@ ensures unchangedExcept("Paragraph.Properties", "ParagraphProperties.ParagraphStyle")
+//@ ensures forall q *Paragraph :: q != p ==> q.Properties == old(q.Properties)
+//@ ensures forall q *ParagraphProperties :: allocated(q) && q != old(p.Properties) ==> q.ParagraphStyle == old(q.ParagraphStyle)
+
+// createTOCEntryWithFields: the entry paragraph of a field-based TOC carries the TOC entry style of its level
+// (levels 1..9, as collected from the headings). (The eleven runs are appended one by one; stating their content
+// or a frame over the eleven appends costs minutes of solver time and is left out.)
+//@ func (*Document).createTOCEntryWithFields
+//@ props C13
+//@ appendfacts
+//@ requires 1 <= entry.Level && entry.Level <= 9
+//@ ensures fresh(result) && result.Properties != nil && result.Properties.ParagraphStyle != nil && result.Properties.ParagraphStyle.Val == styTOCEntryId(entry.Level) && styIsTOCEntryId(result.Properties.ParagraphStyle.Val)
+//@ ensures live(result) && live(result.Properties) && live(result.Properties.ParagraphStyle)
+
+// styParaStyled(x, id): x is a paragraph whose style reference is id.
+//@ spec styParaStyle(x any) string = x.(*Paragraph).Properties.ParagraphStyle.Val
+//@ spec styParaHasStyle(x any) bool = isPara(x) && x.(*Paragraph).Properties != nil && x.(*Paragraph).Properties.ParagraphStyle != nil
+
+// createWordFieldTOC (used by AutoGenerateTOC): one TOC control whose content is the title paragraph (no style
+// reference), the field paragraph styled "12" (TOC heading), one entry paragraph per entry styled with a TOC entry
+// id, and the field-end paragraph styled "Normal" (fix 70b909c; it was "2", an id no style carries).
+//@ func (*Document).createWordFieldTOC
+//@ props C13
+//@ appendfacts
+//@ requires config != nil
+//@ requires forall k int :: {entries[k]} 0 <= k && k < len(entries) ==> 1 <= entries[k].Level && entries[k].Level <= 9
+//@ ensures len(result) == 1 && isTOCSDT(result[0]) && fresh(result[0].(*SDT)) && result[0].(*SDT).Content != nil
+//@ ensures len(result[0].(*SDT).Content.Elements) == 3 + len(entries)
+//@ ensures isPara(result[0].(*SDT).Content.Elements[0]) && result[0].(*SDT).Content.Elements[0].(*Paragraph).Properties != nil && result[0].(*SDT).Content.Elements[0].(*Paragraph).Properties.ParagraphStyle == nil
+//@ ensures styParaHasStyle(result[0].(*SDT).Content.Elements[1]) && styParaStyle(result[0].(*SDT).Content.Elements[1]) == "12"
+//@ ensures forall k int :: {entries[k]} 0 <= k && k < len(entries) ==> 1 <= entries[k].Level && styParaHasStyle(result[0].(*SDT).Content.Elements[2 + k]) && styIsTOCEntryId(styParaStyle(result[0].(*SDT).Content.Elements[2 + k]))
+//@ ensures styParaHasStyle(result[0].(*SDT).Content.Elements[2 + len(entries)]) && styParaStyle(result[0].(*SDT).Content.Elements[2 + len(entries)]) == "Normal"
+//@ loop 1
+//@   invariant 0 <= #i && #i <= len(entries) && tocSDT != nil && fresh(tocSDT) && tocGallery(tocSDT) && tocSDT.Content != nil && fresh(tocSDT.Content)
+//@   invariant forall k int :: {entries[k]} 0 <= k && k < len(entries) ==> 1 <= entries[k].Level && entries[k].Level <= 9
+//@   invariant len(tocSDT.Content.Elements) == 2 + #i && arr(tocSDT.Content.Elements) > 0 && arr(tocSDT.Content.Elements) >= old(allocBound()) && arr(tocSDT.Content.Elements) < allocBound()
+//@   invariant isPara(tocSDT.Content.Elements[0]) && tocSDT.Content.Elements[0].(*Paragraph).Properties != nil && tocSDT.Content.Elements[0].(*Paragraph).Properties.ParagraphStyle == nil && live(tocSDT.Content.Elements[0].(*Paragraph)) && live(tocSDT.Content.Elements[0].(*Paragraph).Properties)
+//@   invariant styParaHasStyle(tocSDT.Content.Elements[1]) && styParaStyle(tocSDT.Content.Elements[1]) == "12"
+//@   invariant live(tocSDT.Content.Elements[1].(*Paragraph)) && live(tocSDT.Content.Elements[1].(*Paragraph).Properties) && live(tocSDT.Content.Elements[1].(*Paragraph).Properties.ParagraphStyle)
+//@   invariant forall k int :: {entries[k]} 0 <= k && k < #i ==> 1 <= entries[k].Level && styParaHasStyle(tocSDT.Content.Elements[2 + k]) && styIsTOCEntryId(styParaStyle(tocSDT.Content.Elements[2 + k])) && live(tocSDT.Content.Elements[2 + k].(*Paragraph)) && live(tocSDT.Content.Elements[2 + k].(*Paragraph).Properties) && live(tocSDT.Content.Elements[2 + k].(*Paragraph).Properties.ParagraphStyle)
+//@   decreases len(entries) - #i
+
+// ApplyTableStyle writes the style reference of a table: the caller's own id (config.StyleID - the caller's choice,
+// like SetStyle) or, when a template is chosen, the template NAME.
+// post-template-defined (C13) - KNOWN FINDING, recorded in /verif/KNOWN_FINDINGS.json, not repaired. The clause
+//     ensures string(config.Template) != "" ==> styIsTableStyleId(t.Properties.TableStyle.Val)
+// is refuted by the second postcondition below (the value IS the template name) and is therefore not generated: an
+// obligation that can only time out would cost the property check 40 s on every run. The template name
+// is written as w:tblStyle, but none of the fifteen names (TableNormal, TableGrid, TableList, TableColorful1..3,
+// TableColumns1..3, TableRows1..3, TablePlain1..3) is the id of a style in the registry (it defines the table styles
+// "a1" = Normal Table and "ab" = Table Grid only), so the saved package refers to a table style it does not define.
+// Failing history: New(); tb := AddTable(2x2); tb.ApplyTableStyle(&TableStyleConfig{Template: TableStyleTemplateGrid});
+// Save -> document.xml has w:tblStyle w:val="TableGrid", styles.xml has no w:styleId="TableGrid".
+// The repair (fifteen table style definitions, or a mapping onto defined ones) is a feature, not a patch.
+//@ spec styIsTableStyleId(v string) bool = v == "a1" || v == "ab"
+//@ func (*Table).ApplyTableStyle
+//@ props C13
+//@ requires t != nil && config != nil
+//@ ensures result == nil
+//@ ensures string(config.Template) != "" ==> t.Properties != nil && t.Properties.TableStyle != nil && t.Properties.TableStyle.Val == string(config.Template)
+//@ ensures string(config.Template) == "" && config.StyleID != "" ==> t.Properties != nil && t.Properties.TableStyle != nil && t.Properties.TableStyle.Val == config.StyleID
+//@ ensures string(config.Template) == "" && config.StyleID == "" ==> t.Properties != nil && t.Properties.TableStyle == old(ite(t.Properties == nil, nil, t.Properties.TableStyle))
+
+// collectHeadingsAndAddBookmarks (AutoGenerateTOC): every collected entry has a level in 1..9 - the precondition
+// under which createWordFieldTOC / createTOCEntryWithFields write a defined TOC entry style. (What the function does
+// to the body - a bookmark pair around every collected heading - is not specified here.)
+//@ func (*Document).collectHeadingsAndAddBookmarks
+//@ props C13
+//@ appendfacts
+//@ requires d != nil && d.Body != nil && elemsOK(d.Body.Elements)
+//@ ensures forall k int :: {result[k]} 0 <= k && k < len(result) ==> 1 <= result[k].Level && result[k].Level <= 9
+//@ ensures len(d.Body.Elements) >= old(len(d.Body.Elements))
+//@ loop 1
+//@   invariant len(newElements) >= #i
+//@   invariant 0 <= #i && #i <= old(len(d.Body.Elements)) && d != nil && d.Body != nil && d.Body.Elements == old(d.Body.Elements)
+//@   invariant forall j int :: {old(d.Body.Elements[j])} 0 <= j && j < old(len(d.Body.Elements)) ==> d.Body.Elements[j] == old(d.Body.Elements[j])
+//@   invariant cap(entries) == 0 || (arr(entries) >= old(allocBound()) && arr(entries) < allocBound())
+//@   invariant cap(newElements) == 0 || (arr(newElements) >= old(allocBound()) && arr(newElements) < allocBound())
+//@   invariant forall k int :: {entries[k]} 0 <= k && k < len(entries) ==> 1 <= entries[k].Level && entries[k].Level <= 9
+//@   decreases old(len(d.Body.Elements)) - #i
+
+// AutoGenerateTOC hands createWordFieldTOC entries with levels in 1..9 (pre@createWordFieldTOC is discharged here),
+// so every style id it writes is a predefined one.
+//@ func (*Document).AutoGenerateTOC
+//@ props C13
+//@ appendfacts
+//@ requires d != nil && d.Body != nil && elemsOK(d.Body.Elements)
